@@ -69,6 +69,23 @@ inline void prop_c01(const vf::Case& c, Ctx& ctx)
     auto db = e::create_temporary_database(schema);
     std::optional<dj::track> tr;
     Fields before;
+    if (h.below(4) == 0)
+    {
+        // the track under test is not the first the library has seen: another track (snapshot b) is written, read and removed first, so that
+        // whatever the library remembers about "the last track" (and, on 1.x, the recycled id) meets the write under test
+        try
+        {
+            dj::track_snapshot gone = b;
+            gone.relative_path = "stored/removed-before.mp3";
+            dj::track g = db.create_track(gone);
+            (void)g.snapshot();
+            db.remove_track(g);
+            ctx.label("after-removed-track");
+        }
+        catch (const std::exception&)
+        {
+        }
+    }
     if (update_mode)
     {
         ctx.label("mode=update");
